@@ -178,6 +178,26 @@ fn blob_in_records(name: &str, d: &[u8], level: u32, frame: &[u8], r: &mut Repor
     want_chunk.extend_from_slice(&var);         // step 1 = FieldAdded: size of chunk 1
     want_chunk.extend_from_slice(&[7, 9]);
     want_chunk.extend_from_slice(frame);
+    // truncation: every strict prefix of the record encodings is rejected (a cut inside or right after the frame too)
+    if d.len() <= 300 {
+        for (what, full) in [("tuple", &want_tup), ("chunk", &want_chunk)] {
+            for k in 0..full.len() {
+                r.count("frame_in_record_prefix");
+                let res = guarded(|| {
+                    if what == "tuple" {
+                        desert_core::deserialize::<(u8, Blob, u8)>(&full[..k]).map(|_| ())
+                    } else {
+                        desert_core::deserialize::<InChunk<Blob>>(&full[..k]).map(|_| ())
+                    }
+                });
+                if !matches!(res, Ok(Err(_))) {
+                    r.finding("frame_in_record_prefix", &["C16", "C08"], json!({"content": name, "level": level, "holder": what, "cut": k, "of": full.len(),
+                        "got": format!("{res:?}")}));
+                    break;
+                }
+            }
+        }
+    }
     match got {
         Ok(Ok((top, tup, chunk, back))) if top == frame && tup == want_tup && chunk == want_chunk && back => {}
         other => r.finding("frame_in_record", &["C16"], json!({"content": name, "level": level,
